@@ -47,6 +47,12 @@ def gen_template(rng, toks, length, profile="mixed", kind_hint=None):
                 val = rng.choice(["#ff0000", "#00ff00aa", "#123456"])
             if key == "order" and val is not None:
                 val = rng.choice(["1", "7", "42"])
+            if key in ("displayname", "description", "comment") and rng.random() < 0.3:
+                # the value another text property was last given
+                prev = [o[2] for o in ops if o[0] == "setmeta" and o[1] in ("displayname", "description", "comment")
+                        and o[1] != key and o[2] is not None]
+                if prev:
+                    val = prev[-1]
             ops.append(("setmeta", key, val))
             continue
         if r < 0.55:
